@@ -93,6 +93,12 @@ class Sched:
         self.gran = granularity
         self.switches = 0
         self.points = [0] * nthreads
+        # A thread that is handed the turn may BLOCK inside the library (e.g. on a lock held by a parked thread): a
+        # cooperative scheduler must not turn correct locking into a deadlock.  Every switch point counts as progress; a
+        # parked thread that sees no progress for two consecutive waits declares the schedule stalled and all threads
+        # then run freely (ordinary preemptive threading) to the end.  The run stays a legitimate execution.
+        self.progress = 0
+        self.free = False
 
     def next_thread(self, me):
         n = len(self.sems)
@@ -107,8 +113,23 @@ class Sched:
                 return t
         return None
 
+    def park(self, me):
+        seen = None
+        while not self.sems[me].acquire(timeout=0.4):
+            if self.free:
+                return
+            if seen is not None and seen == self.progress:
+                self.free = True
+                for sem in self.sems:
+                    sem.release()
+                return
+            seen = self.progress
+
     def switch_point(self, me):
         self.points[me] += 1
+        self.progress += 1
+        if self.free:
+            return
         self.used[me] += 1
         if self.used[me] < self.chunk[me]:
             return
@@ -119,7 +140,7 @@ class Sched:
             return
         self.switches += 1
         self.sems[nxt].release()
-        self.sems[me].acquire()
+        self.park(me)
 
     def finish(self, me):
         self.done[me] = True
@@ -183,7 +204,7 @@ def run_schedule(j):
     errors = []
 
     def worker(t):
-        s.sems[t].acquire()
+        s.park(t)
         sys.settrace(s.tracer(t))
         try:
             for name in threads[t]:
@@ -204,7 +225,7 @@ def run_schedule(j):
         th.join(timeout=120)
     alive = [th.is_alive() for th in ths]
     return {"kind": "schedule", "parses": [p for r in results for p in r], "switches": s.switches, "points": s.points,
-            "errors": errors, "hung": any(alive)}
+            "errors": errors, "hung": any(alive), "freerun": s.free}
 
 
 def run_stress(j):
